@@ -625,7 +625,17 @@ def solve_anchors(model, r):
         model.__dict__["_solve_inlined"] = inline_nested_defs(fn)
     fn = model.__dict__["_solve_inlined"]
     fn = sink_map_columns(model, fn, lambda l: isinstance(l, ast.For) and iter_is_role(l, r["TOPO"]))
-    row = find_loop(fn, lambda l: isinstance(l, ast.For) and iter_is_role(l, r["TOPO"]), "row loop")
+    def _is_row(l):
+        return isinstance(l, ast.For) and iter_is_role(l, r["TOPO"])
+
+    def _has_power_law(l):
+        return any(isinstance(c, ast.Call) and isinstance(c.func, ast.Attribute) and c.func.attr == "_solv_pwr_loss" for c in ast.walk(l))
+    cands = [n for n in ast.walk(fn) if _is_row(n)]
+    if len([c for c in cands if _has_power_law(c)]) == 1 and len(cands) > 1:
+        # several loops over the nodes: the one that evaluates the power / loss law builds the rows, the others prepare values for it
+        row = find_loop(fn, lambda l: _is_row(l) and _has_power_law(l), "row loop")
+    else:
+        row = find_loop(fn, _is_row, "row loop")
     chain = enclosing_chain(fn, row)
     phase_loop = None
     for body, idx in chain:
@@ -633,6 +643,20 @@ def solve_anchors(model, r):
             phase_loop = body[idx]
     if phase_loop is None:
         raise AnalysisError("row loop of solve is not nested in a phase loop")
+    # values the rows read from a container that another loop of the same phase iteration fills: either the simple per-node form
+    # `for m in nodes: X[m] = E(m)` (then X[n] is E(n), written out here), or something the row reader does not follow
+    row_reads = {y.value.id for y in ast.walk(row) if isinstance(y, ast.Subscript) and isinstance(y.ctx, ast.Load) and isinstance(y.value, ast.Name)}
+    for lp in [x for x in ast.walk(phase_loop) if isinstance(x, (ast.For, ast.While)) and x is not row and not any(y is x for y in ast.walk(row))
+               and not any(y is row for y in ast.walk(x))]:
+        filled = set()
+        for y in ast.walk(lp):
+            if isinstance(y, ast.Subscript) and isinstance(y.ctx, ast.Store) and isinstance(y.value, ast.Name):
+                filled.add(y.value.id)
+            if isinstance(y, ast.AugAssign) and isinstance(y.target, ast.Subscript) and isinstance(y.target.value, ast.Name):
+                filled.add(y.target.value.id)
+        hit = filled & row_reads
+        if hit and getattr(lp, "lineno", 0) < getattr(row, "lineno", 0):
+            raise AnalysisError("solve: the rows read %s, which another loop of the same phase iteration fills beforehand: a two-pass row assembly the reader does not follow" % ", ".join(sorted(hit)))
     # V, I, ITERS, STATE: tuple targets of the SOLVER call
     vis = None
     for n in ast.walk(phase_loop):
